@@ -27,6 +27,14 @@ def scratch():
     return common.scratch_dir("liquer-verif-eval-")
 
 
+# in-place mutators on DICTIONARY values (nested containers too); oracle-only histories shared by C04 / C05
+MUTATOR_HISTORIES = [
+    ["dct-a", "dct-a/setk-b", "dct-a", "dct-a/setk-c", "dct-a/setk-b", "dct-a/setk-b/setk-c", "dct-a/setk-b", "dct-a"],
+    ["dct-a/nest-p", "dct-a/nest-p/nest-q", "dct-a/nest-p", "dct-a/nest-p/nest-q/nest-r", "dct-a/nest-p/nest-q", "dct-a/nest-p"],
+    ["dct-a/nest-p/setk-b", "dct-a/nest-p", "dct-a/nest-p/setk-b/nest-q", "dct-a/nest-p/setk-b", "dct-a/nest-p", "dct-a"],
+]
+
+
 def cache_configs(tmp):
     """(name, factory, model kind: '1' keep-data | '0' replace-record | 'N' NoCache | None no model)"""
     from liquer import cache as C
@@ -55,6 +63,8 @@ def cache_configs(tmp):
         ("MemoryCache.if_contains(abc)", lambda: C.MemoryCache().if_contains("abc"), None),
         ("MemoryCache.if_not_contains(abc)", lambda: C.MemoryCache().if_not_contains("abc"), None),
         ("MemoryCache.if_attribute_equal(Keep,k1)", lambda: C.MemoryCache().if_attribute_equal("Keep", "k1"), None),
+        # an attribute that every result carries with a FALSE value: the condition is about truth, not presence, so everything non-volatile is admitted
+        ("MemoryCache.if_not_contains(volatile)", lambda: C.MemoryCache().if_not_contains("volatile"), None),
         ("CacheProxy(MemoryCache)", lambda: C.CacheProxy(C.MemoryCache()), "1"),
     ]
 
